@@ -66,7 +66,7 @@ BLOCKS = {
     "runcells": "RUN_CELLS\n -cells 1\n -time_step 50\nEND\n",
     "advect": "SOLUTION 0\n pH 7\n Na 5\n Cl 5 charge\nADVECTION\n -cells 2\n -shifts 2\n -time_step 10\n -punch_cells 1-2\n -print_cells 1\nEND\n",
     # ---- definition blocks (no calculation of their own, except exch/surf which equilibrate with solution 1)
-    "reaction": "REACTION 1\n HCl 1\n 0.5 mmol\nEND\n",
+    "reaction": "REACTION 1\n HCl 1\n LiBr 0.1\n 0.5 mmol\nEND\n",      # brings two elements (Li, Br) nothing else holds: the component list grows
     "rates": "RATES\n r1\n -start\n 10 SAVE PARM(1) * TIME * 3\n -end\nEND\n",
     "selout": "SELECTED_OUTPUT 1\n -reset false\n -high_precision true\n -state true\n -totals K Cl\n -molalities Na+ CaCO3\n -saturation_indices Calcite\nEND\n",
     "upunch": "USER_PUNCH 1\n -headings q n\n 10 PUT(GET(7) + 1, 7)\n 20 PUNCH TOT(\"Cl\") * 2, GET(7)\nEND\n",
